@@ -89,6 +89,37 @@ def check_mvdr(run, A):
         okh = axes == {-1, -2} and cj
     run.check(okh, 'R-ROLE', 'get_mvdr_vector: noise PSD is symmetrised as (Phi + Phi^H) / 2', fn.loc(), '', 'Hermitian symmetrisation with conj and swapaxes(-1, -2) not found',
               construct=f'R-ROLE::{q}::hermitise')
+    # the matrix that is inverted is the given noise PSD (symmetrised), nothing else: loading / regularisation changes the
+    # minimiser, the result is no longer the minimum-variance vector for the caller's Phi_nn
+    for t in solves:
+        a = strip_views(call_arg(t, 0))
+        sym = None
+        if a.op == 'binop' and a.args[0] == 'Mult':
+            inner = [x for x in (strip_views(a.args[1]), strip_views(a.args[2])) if x.op == 'binop' and x.args[0] == 'Add']
+            coef = [x for x in (a.args[1], a.args[2]) if const_val(x) == 0.5]
+            sym = inner[0] if inner and coef else None
+        elif a.op == 'binop' and a.args[0] == 'Div' and const_val(a.args[2]) == 2:
+            sym = strip_views(a.args[1]) if strip_views(a.args[1]).op == 'binop' else None
+        exact = False
+        if sym is not None:
+            l, r = strip_views(sym.args[1]), strip_views(sym.args[2])
+
+            def base_param(x):
+                x = strip_views(x)
+                while x.op in ('mu', 'gamma') or is_call_to(x, 'numpy.expand_dims'):
+                    if x.op == 'mu':
+                        x = strip_views(x.args[0])
+                    elif x.op == 'gamma':
+                        x = strip_views(x.args[1])
+                    else:
+                        x = strip_views(call_arg(x, 0))
+                return x
+            lb = base_param(l)
+            exact = lb.op == 'param' and lb.args[0] == 'noise_psd_matrix' and derives(r, 'noise_psd_matrix') and \
+                not any(x.op == 'call' and call_parts(x)[0] and call_parts(x)[0].startswith('pb_bss.') for x in walk_terms(sym, into_mu=True))
+        run.check(exact, 'R-ROLE', 'get_mvdr_vector: the solved matrix is the given noise PSD (symmetrised only)', fn.loc(t.node), '',
+                  'the matrix handed to solve is a modified noise PSD (e.g. diagonally loaded): the result satisfies the constraint but is not the minimum-variance vector for Phi_nn',
+                  construct=f'R-ROLE::{q}::solved-matrix')
     # denominator a^H (Phi^-1 a)
     sites = ein.find_sites(A, q)
     if not sites:
